@@ -757,6 +757,45 @@ pub fn explore_all(tier: Tier) -> PmResult {
         );
         res.stats.push((format!("{name} ({} statements) depth {depth}", alphabet.len()), stats));
     }
+    // corpus pass: every accepted program of the repository's own .vrl corpus on its declared input object
+    {
+        let corpus = crate::corpus::load();
+        let ext = ExternalEnv::default();
+        let names: BTreeSet<String> = VAR_NAMES.iter().map(|s| (*s).to_string()).collect();
+        let mut acc = Acc::default();
+        let mut accepted = 0u64;
+        for c in &corpus {
+            // nondeterministic functions make no difference to these invariants; programs that need files or the
+            // network are simply rejected/erroring
+            let compiled = FNS.with(|fns| guarded(|| vrlx::compile_ext(&c.src, fns, &ext, compile_cfg())));
+            let w = || json!({"config": "corpus(default env)", "corpus_file": c.name, "event": vv::enc(&c.object), "metadata": {}, "program": [c.src]});
+            let program = match compiled {
+                Err(p) => {
+                    acc.violations.push(("C04", Violation::new("C04.compile-panic", w(), "compilation does not panic", p)));
+                    continue;
+                }
+                Ok(Err(_)) => continue,
+                Ok(Ok(r)) => Arc::new(r.program),
+            };
+            accepted += 1;
+            let mut n2 = names.clone();
+            for (n, _, _) in program.final_type_info().state.local.verif_bindings() {
+                n2.insert(n);
+            }
+            match guarded(|| execute(std::slice::from_ref(&program), &c.object, &vrlx::empty_object(), &n2)) {
+                Err(p) => acc.violations.push(("C04", Violation::new("C04.run-panic", w(), "running does not panic", p))),
+                Ok(None) => {}
+                Ok(Some(view)) => invariants("corpus", &c.src, &program, &view, &w, &mut acc),
+            }
+        }
+        res.counters.insert("corpus_programs", corpus.len() as u64);
+        res.counters.insert("corpus_programs_accepted_and_run", accepted);
+        res.violations.extend(acc.violations);
+        res.classes.extend(acc.classes);
+        for (k, v) in acc.counters {
+            *res.counters.entry(k).or_insert(0) += v;
+        }
+    }
     res.samples.push(witness_json(&cfgs[0], 4, &[". = {\"a\": [1, \"s\", true]}".to_string(), "del(.a[0])".to_string()], ".b = .a[1]"));
     res.samples.push(witness_json(&cfgs[1], 0, &["x = 5".to_string()], "y = 10 / x"));
     res
@@ -822,6 +861,23 @@ pub fn run_c16(tier: Tier) -> Report {
 
 /// Replay one witness: {config, event, metadata, program: [stmts], mode}.
 pub fn replay(property: &str, w: &J) -> Vec<Violation> {
+    if w["config"] == "corpus(default env)" {
+        let src = w["program"][0].as_str().unwrap_or("");
+        let event = vv::dec(&w["event"]);
+        let compiled = FNS.with(|fns| guarded(|| vrlx::compile_ext(src, fns, &ExternalEnv::default(), compile_cfg())));
+        let Ok(Ok(r)) = compiled else { return vec![] };
+        let program = Arc::new(r.program);
+        let mut names: BTreeSet<String> = VAR_NAMES.iter().map(|s| (*s).to_string()).collect();
+        for (n, _, _) in program.final_type_info().state.local.verif_bindings() {
+            names.insert(n);
+        }
+        let mut acc = Acc::default();
+        let wj = w.clone();
+        if let Ok(Some(view)) = guarded(|| execute(std::slice::from_ref(&program), &event, &vrlx::empty_object(), &names)) {
+            invariants("corpus", src, &program, &view, &|| wj.clone(), &mut acc);
+        }
+        return acc.violations.into_iter().filter(|(t, _)| *t == property).map(|(_, v)| v).collect();
+    }
     let cfgs = configs(Tier::Thorough);
     let Some(ci) = cfgs.iter().position(|c| Some(c.name) == w["config"].as_str()) else { return vec![] };
     let ev = vv::dec(&w["event"]);
